@@ -34,6 +34,11 @@ type triple struct {
 	update   protoreflect.MethodDescriptor
 	pull     protoreflect.MethodDescriptor
 	resource protoreflect.MessageDescriptor // R = output of GetX
+
+	// keyed families (collection items): the request field holding the key, and the Create/Delete RPCs if the service has them
+	keyField string
+	create   protoreflect.MethodDescriptor
+	del      protoreflect.MethodDescriptor
 }
 
 func (t triple) key() string { return t.Row.key() + "/" + t.X }
@@ -42,7 +47,7 @@ func (t triple) key() string { return t.Row.key() + "/" + t.X }
 // written at the model level only.
 func (t triple) isPair() bool { return t.update == nil }
 
-// keyedTriples records Get/Update/Pull name triples that address collection items by key (skipped).
+// keyedTriples records keyed Get/Update/Pull triples whose shape the keyed driver does not handle (skipped, listed).
 var keyedTriples = map[string]bool{}
 
 type unwrapper interface {
@@ -93,19 +98,35 @@ func discover(row stackRow) ([]triple, string, error) {
 		if g.Input().Fields().ByName("read_mask") == nil || p.Input().Fields().ByName("updates_only") == nil {
 			continue
 		}
-		// a Get request with more than (name, read_mask) addresses one item of a collection by a key:
-		// a keyed family of registers, not the single register this property is about
-		keyed := false
+		// a Get request with one more string field besides (name, read_mask) addresses one item of a collection by
+		// that key: a KEYED family of registers. The key is also a field of the resource (the Update request
+		// carries it inside the payload) and of the Pull request.
+		keyField := ""
+		extra := 0
 		for j := 0; j < g.Input().Fields().Len(); j++ {
-			if n := g.Input().Fields().Get(j).Name(); n != "name" && n != "read_mask" {
-				keyed = true
+			fd := g.Input().Fields().Get(j)
+			n := fd.Name()
+			if n == "name" || n == "read_mask" {
+				continue
+			}
+			extra++
+			// the key: a string field that the Pull request and the resource itself have too; other extra
+			// fields of the Get request (publication's `version`) stay unset
+			rk, pk := g.Output().Fields().ByName(n), p.Input().Fields().ByName(n)
+			if keyField == "" && fd.Kind() == protoreflect.StringKind && !fd.IsList() && rk != nil && rk.Kind() == protoreflect.StringKind && pk != nil {
+				keyField = string(n)
 			}
 		}
-		if keyed {
-			keyedTriples[row.key()+"/"+x] = true
+		if extra > 0 && (keyField == "" || u == nil) {
+			keyedTriples[row.key()+"/"+x] = true // a shape the keyed driver does not know: listed, not driven
 			continue
 		}
-		out = append(out, triple{Row: row, Service: desc.ServiceName, X: x, get: g, update: u, pull: p, resource: g.Output()})
+		tr := triple{Row: row, Service: desc.ServiceName, X: x, get: g, update: u, pull: p, resource: g.Output(), keyField: keyField}
+		if keyField != "" {
+			tr.create = ms.ByName(protoreflect.Name("Create" + x))
+			tr.del = ms.ByName(protoreflect.Name("Delete" + x))
+		}
+		out = append(out, tr)
 	}
 	return out, desc.ServiceName, nil
 }
@@ -234,7 +255,10 @@ type session struct {
 	sid     sessionID
 	pokes   []reflect.Value // model-level writers of the resource (pairs only)
 
-	noSeedWait bool
+	noSeedWait    bool
+	createdByPoke bool
+	// keyedOpen, when set, adds the item key to the Pull request and returns the acceptor's open line prefix
+	keyedOpen func(req protoreflect.Message) string
 }
 
 func txt(m proto.Message) string {
@@ -370,6 +394,14 @@ func (s *session) doGet(mask *fieldmaskpb.FieldMask) {
 	}
 	if err, _ := out[1].Interface().(error); err != nil {
 		s.trace = append(s.trace, stepDesc{s.step, op, "error: " + err.Error()})
+		if s.step < 0 && status.Code(err) == codes.NotFound && len(s.pokes) > 0 && !s.createdByPoke {
+			// a server that keys its registers by the request name (metadatapb.CollectionServer) has none under the
+			// device name yet: create it with a model-level write, then learn it
+			s.createdByPoke = true
+			s.trace = append(s.trace, stepDesc{s.step, op, "NotFound: creating the register under the device name at the model level"})
+			s.doPoke()
+			return
+		}
 		if s.step < 0 && status.Code(err) == codes.NotFound {
 			// nothing is registered under this name in a server that keys its registers by the request name
 			// (metadatapb.CollectionServer): no register to observe
@@ -558,6 +590,10 @@ func (s *session) doPullWith(mask *fieldmaskpb.FieldMask, uo bool) {
 	req := newMsg(s.t.pull.Input())
 	setStr(req, "name", devName)
 	setMask(req, "read_mask", mask)
+	openLine := "open"
+	if s.keyedOpen != nil {
+		openLine = s.keyedOpen(req)
+	}
 	if fd := req.Descriptor().Fields().ByName("updates_only"); fd != nil {
 		req.Set(fd, protoreflect.ValueOfBool(uo))
 	}
@@ -622,7 +658,7 @@ func (s *session) doPullWith(mask *fieldmaskpb.FieldMask, uo bool) {
 	if uo {
 		uoi = 1
 	}
-	s.obs(fmt.Sprintf("open %d %d", s.maskID(mask), uoi), "ok")
+	s.obs(fmt.Sprintf("%s %d %d", openLine, s.maskID(mask), uoi), "ok")
 	if !s.noSeedWait {
 		s.drainSeed(len(s.streams) - 1)
 	}
@@ -812,15 +848,24 @@ func pokeMethods(model any, r protoreflect.MessageDescriptor) []reflect.Value {
 			ok = ok || strings.HasPrefix(m.Name, p)
 		}
 		mt := m.Type
-		if !ok || mt.NumIn() < 2 || mt.NumIn() > 3 {
+		if !ok || mt.NumIn() < 2 {
 			continue
 		}
-		in := mt.In(1)
+		// (recv, *R [, ...WriteOption])  or, for servers that key their registers by the device name
+		// (metadatapb.Collection), (recv, name string, *R [, ...WriteOption])
+		pi := 1
+		if mt.In(1).Kind() == reflect.String && mt.NumIn() >= 3 {
+			pi = 2
+		}
+		if mt.NumIn() > pi+2 {
+			continue
+		}
+		in := mt.In(pi)
 		pm, isProto := reflect.Zero(in).Interface().(proto.Message)
 		if !isProto || in.Kind() != reflect.Ptr || pm.ProtoReflect().Descriptor().FullName() != r.FullName() {
 			continue
 		}
-		if mt.NumIn() == 3 && !(mt.IsVariadic() && mt.In(2).Elem() == tWriteOpt) {
+		if mt.NumIn() == pi+2 && !(mt.IsVariadic() && mt.In(pi+1).Elem() == tWriteOpt) {
 			continue
 		}
 		out = append(out, v.Method(i))
@@ -841,7 +886,15 @@ func (s *session) doPoke() {
 	op := fmt.Sprintf("model-level write(%s)", txt(payload))
 	reportProgress(progress{Sid: s.sid, Step: s.step, Op: op, Trace: tailTrace(s.trace, 12)})
 	var outs []reflect.Value
-	panicked, pmsg := lib.Catch(func() { outs = m.Call([]reflect.Value{reflect.ValueOf(payload)}) })
+	args := []reflect.Value{reflect.ValueOf(payload)}
+	if mt := m.Type(); mt.NumIn() >= 2 && mt.In(0).Kind() == reflect.String {
+		// the register lives under the device name; create it if this is the first write
+		args = []reflect.Value{reflect.ValueOf(devName), reflect.ValueOf(payload)}
+		if mt.IsVariadic() {
+			args = append(args, reflect.ValueOf(resource.WithCreateIfAbsent()))
+		}
+	}
+	panicked, pmsg := lib.Catch(func() { outs = m.Call(args) })
 	if panicked {
 		s.trace = append(s.trace, stepDesc{s.step, op, "panic: " + pmsg})
 		return // a model-level panic on arbitrary input is not this property's concern
